@@ -241,3 +241,10 @@ package plumbing
 //gvc:  opt frame args
 //gvc:  ensures fmt: result != nil && (bytes_eq(f, "sha256") == bytes_eq(result.format, "sha256")) && (!bytes_eq(f, "sha256") ==> len(result.format) == 0)
 //gvc:end
+
+// Reference.String only reads the reference (trusted frame: its body builds
+// the text with a strings.Builder and assigns nothing else).
+//gvc:func (*Reference).String
+//gvc:  trusted
+//gvc:  params r
+//gvc:end
